@@ -3,6 +3,7 @@
 #   full .vo build of the Coq development (no -vos), extraction, OCaml drivers.
 set -e
 cd "$(dirname "$0")/.."
+mkdir -p build
 cd coq
 coq_makefile -f _CoqProject -o Makefile > /dev/null
 # -k: a broken proof in one property file must not keep the others from building; the checks
